@@ -329,6 +329,7 @@ pub fn check_case(door: Door, b: &[u8], case: &mut Case) {
             }
             _ => {}
         },
+        Door::TcpOpts | Door::NdpOpts => {}
     }
 }
 
